@@ -117,7 +117,12 @@ std::vector<Source> Source::findSources(const util::Filter<Source>::type &filter
 nix::Source Source::parentSource() const {
     nix::Source s;
     nix::Block b = backend()->parentBlock();
-    std::vector<nix::Source> srcs = b.findSources(nix::util::SourceFilter<nix::Source>(id()));
+    // the parent is the source that has a direct child with this id; hasSource(name_or_id), as used by
+    // SourceFilter, would also accept a source that merely has a child *named* like this id
+    const std::string my_id = id();
+    std::vector<nix::Source> srcs = b.findSources([&my_id](const nix::Source &src) {
+        return !src.sources(nix::util::IdFilter<nix::Source>(my_id)).empty();
+    });
     return (srcs.size() > 0) ? srcs[0] : s;
 }
 
